@@ -35,6 +35,8 @@ CONSTANTS
     Advs,         \* sleeper behaviours: "exact", "over1", "over4", "none" and the faults
                   \* "kbd", "sysexit", "cancel" (sleeper raises a cancellation-type exception)
     Decs,         \* sleep-handler decisions offered: subset of {"sleep","defer","abort"}
+    BFaults,      \* before_sleep behaviours: "none", "error" (ordinary exception, must be
+                  \* swallowed), "kbd", "sysexit", "cancel" (must propagate)
     Ras,          \* retry_after hints attached to failures (-1 = none)
     Modes,        \* subset of {"call", "exec"}: how the result is delivered
     NRuns         \* consecutive runs on the same policy object (budget is shared)
@@ -43,6 +45,7 @@ NonRetry == {"PERMANENT", "AUTH", "PERMISSION"}
 None == -1
 Unobs == -2       \* argument not observable (legacy 3-argument strategies)
 SleeperExc == -3  \* "id" of the exception object raised by the sleeper
+BSleepExc == -4   \* "id" of the exception object raised by before_sleep
 
 CancelOuts == {"cancel", "kbd", "sysexit", "nested"}
 
@@ -83,7 +86,7 @@ EvEmit(name, n, sleep, k, err, stop, cause, ra, op, t) ==
     [e |-> "emit", name |-> name, n |-> n, sleep |-> sleep, k |-> k, err |-> err,
      stop |-> stop, cause |-> cause, ra |-> ra, op |-> op, t |-> t]
 EvHandler(n, sleep, dec, t) == [e |-> "handler", n |-> n, sleep |-> sleep, dec |-> dec, t |-> t]
-EvBSleep(sleep, t)    == [e |-> "bsleep", sleep |-> sleep, t |-> t]
+EvBSleep(sleep, f, t) == [e |-> "bsleep", sleep |-> sleep, fault |-> f, t |-> t]
 EvSleep(s, adv, t, t1) == [e |-> "sleep", s |-> s, adv |-> adv, t |-> t, t1 |-> t1]
 View(kind, id, ok, stop, attempts, lastk, cause, lexc, lres, next, own) ==
     [kind |-> kind, id |-> id, ok |-> ok, stop |-> stop, attempts |-> attempts, lastk |-> lastk,
@@ -255,8 +258,14 @@ Handler(c, s) ==
               [] d = "abort" -> [s EXCEPT !.pc = "abortemit", !.abn = s.att]>> : d \in Decs }
     ELSE {}
 
+\* _call_before_sleep: `except Exception: pass` - ordinary errors are swallowed,
+\* cancellation-type exceptions propagate
 BSleep(c, s) ==
-    IF s.pc = "bsleep" THEN { <<EvBSleep(s.sl, s.now), [s EXCEPT !.pc = "sleep"]>> } ELSE {}
+    IF s.pc = "bsleep" THEN
+        { <<EvBSleep(s.sl, f, s.now),
+            IF f \in SleepFaults THEN [s EXCEPT !.pc = "deliver", !.dkind = "cancelbsleep"]
+                                  ELSE [s EXCEPT !.pc = "sleep"]>> : f \in BFaults }
+    ELSE {}
 
 \* sleeper call, then _finalize_attempt's post-sleep deadline check
 Sleep(c, s) ==
@@ -315,6 +324,8 @@ ExecView(s) ==
            View("cancel", s.att, FALSE, "-", None, "-", "-", None, None, None, TRUE)
       [] s.dkind = "cancelsleep" ->
            View("cancel", SleeperExc, FALSE, "-", None, "-", "-", None, None, None, TRUE)
+      [] s.dkind = "cancelbsleep" ->
+           View("cancel", BSleepExc, FALSE, "-", None, "-", "-", None, None, None, TRUE)
       [] s.dkind = "zero" ->
            View("outcome", None, FALSE, "MAX_ATTEMPTS_GLOBAL", 0, "-", "-", None, None, None, FALSE)
 
@@ -332,6 +343,8 @@ CallView(s) ==
            View("cancel", s.att, FALSE, "-", None, "-", "-", None, None, None, TRUE)
       [] s.dkind = "cancelsleep" ->
            View("cancel", SleeperExc, FALSE, "-", None, "-", "-", None, None, None, TRUE)
+      [] s.dkind = "cancelbsleep" ->
+           View("cancel", BSleepExc, FALSE, "-", None, "-", "-", None, None, None, TRUE)
       [] s.dkind = "zero" ->
            View("runtime", None, FALSE, "-", None, "-", "-", None, None, None, FALSE)
 
